@@ -40,6 +40,13 @@ CLAIMED["C04"] = ("DESIGN.md §4 C04",
     "only when Host, host pattern and route matched, the default only after one of them failed, None/404 only after the default failed; registration only "
     "appends; the four siblings agree. The matcher's own semantics (C05) are not decided.")
 
+CLAIMED["C06"] = ("DESIGN.md §4 C06",
+    "R-FLOW taint (request target -> file-system sinks, all calls propagating), R-DOM same-value check-then-use of the `..` test, fmt-template decoding for path construction, R-TABLE (MIME vs registry, INDEX_FILES), on sync and tokio builds",
+    "Decides for every file-system call in the handler modules (library serve_*, tokio twins, server static handlers, try_find_path): a request-derived path "
+    "is dominated by the `..` test applied to that same, exactly-once-decoded value or goes through try_find_path; paths are built directory-first so they "
+    "cannot be re-rooted; the body served is the buffer read from the opened file, Content-Type is from_extension of that path; MIME table agrees with the "
+    "registry; directories redirect with 301 + uri/; index file order. Symlinks and OS path quirks are not decided.")
+
 NOT_YET = {}
 
 NOT_APPLICABLE = {
